@@ -168,7 +168,7 @@ Proof. intros X t H Hrb. eapply GAssign_length. exact (proj1 (H Hrb)). Qed.
 (* what runs on every document, `accounted4` = Valid.accounted_b on the document without its required-break activities and
    stops ++ the rule above ++ the rule for mixed jobs; for a problem without required breaks it is accounted_b itself plus the
    rule for mixed jobs: the clauses and theorems above keep their meaning *)
-Theorem C02_no_required_breaks_is_accounted_b : forall P S, accounted4 X0 P S = accounted_b P S ++ mixed_viols P S.
+Theorem C02_no_required_breaks_is_accounted_b : forall P S, accounted4 X0 XS0 P S = accounted_b P S ++ mixed_viols P S.
 Proof. exact accounted4_X0. Qed.
 
 (* non-vacuity: a tour whose required break interrupts the service of a job (a break activity inside the stop) and one whose
@@ -176,10 +176,10 @@ Proof. exact accounted4_X0. Qed.
    judged against another break definition, and the second with its break reported twice (finding C02-F3: as a stop without
    location and as an activity of the next stop) give exactly [ARequiredBreak 0] *)
 Theorem C02_nonvacuous_required_break :
-  valid4 ex_Xq ex_P ex_Sq = [] /\ valid4 ex_Xt ex_P ex_St = []
+  valid4 ex_Xq XS0 ex_P ex_Sq = [] /\ valid4 ex_Xt XS0 ex_P ex_St = []
   /\ RBreaksDefined ex_Xq (hd ex_tour (sl_tours ex_Sq)) /\ break_acts (hd ex_tour (sl_tours ex_Sq)) <> []
-  /\ accounted4 ex_Xt ex_P ex_Sq = [ARequiredBreak 0]
-  /\ accounted4 ex_Xt ex_P ex_St_twice = [ARequiredBreak 0].
+  /\ accounted4 ex_Xt XS0 ex_P ex_Sq = [ARequiredBreak 0]
+  /\ accounted4 ex_Xt XS0 ex_P ex_St_twice = [ARequiredBreak 0].
 Proof.
   split; [exact (proj1 ex_required_break)|]. split; [exact (proj1 (proj2 ex_required_break))|].
   split; [exact (proj1 ex_required_break_defined)|]. split; [exact (proj1 (proj2 ex_required_break_defined))|].
